@@ -121,6 +121,8 @@ func famTermNested(w *World, c *Case, rng *rand.Rand) {
 	cause := c.s("cause", "outer-close")
 	specs := phaseSpecs(w.Cfg.RevisionOne())
 	for i, s := range specs {
+		// some callers use a context that can never be cancelled: only the end of the tunnel ends their RPC
+		s.NeverCancel = (i+c.p("steps", 0))%3 == 0
 		w.Env.StartRPC(context.Background(), w.Ch, s)
 		if i%2 == c.p("steps", 0)%2 {
 			w.Wait()
@@ -217,7 +219,9 @@ func famTermination(w *World, c *Case, rng *rand.Rand) {
 	fc := w.Cfg.RevisionOne()
 	specs := phaseSpecs(fc)
 	w.Conn.SetGated(true)
-	for _, s := range specs {
+	for i, s := range specs {
+		// some callers use a context that can never be cancelled: only the end of the tunnel ends their RPC
+		s.NeverCancel = (i+k)%3 == 0
 		w.Env.StartRPC(context.Background(), w.Ch, s)
 	}
 	// deliver exactly k frames (direction chosen by the seeded PRNG among those pending)
